@@ -103,6 +103,9 @@ class Setup:
         pairs = list(itertools.permutations(range(nd), 2))
         self.a, self.b = pairs[(i // 5) % len(pairs)]
         self.k = int(rng.integers(-9, 10))
+        if rng.random() < 0.15:
+            # many turns ("all integer k"): k and k mod 4 agree however large |k| is
+            self.k = int(rng.choice([-1, 1])) * int(10 ** rng.uniform(2, 9)) + int(rng.integers(0, 4))
         self.k_as_numpy = bool(rng.random() < 0.2)
         # subregions
         self.boxes = {}
